@@ -10,6 +10,41 @@ from vh.workers import c16_tables as T
 
 RECORDS = {}
 HASS = [None]
+
+
+class LogicalClock:
+    """Home Assistant's wall clock (homeassistant.core.time) during a case: constant within a step, +10 s per step,
+    so every time stamp identifies the step that wrote it."""
+
+    def __init__(self):
+        import time as _t
+
+        self._real = _t
+        self.base = float(int(_t.time()))
+        self.tick = 0
+
+    def __getattr__(self, name):
+        return getattr(self._real, name)
+
+    def time(self):
+        return self.base + 10.0 * self.tick
+
+    def rank(self, stamp):
+        """datetime -> number of the step that produced it (-1: not one of ours)"""
+        try:
+            x = (stamp.timestamp() - self.base) / 10.0
+        except Exception:  # pylint: disable=broad-except
+            return -1
+        r = round(x)
+        return r if abs(x - r) < 1e-4 and r >= 0 else -1
+
+
+CLOCK = [None]
+
+
+def time_id(stamp):
+    r = CLOCK[0].rank(stamp) if CLOCK[0] is not None else -1
+    return T.TIME_BASE + r if r >= 0 else T.V_BADTIME
 DYN = {}   # canonical string -> dynamic id (values outside the fixed tables), per case
 
 
@@ -40,7 +75,7 @@ def vid(v):
     if callable(v):
         return T.V_FUNC
     if isinstance(v, _dt.datetime):
-        return T.V_TIME
+        return time_id(v)
     try:
         c = T.canon(v)
     except Exception:  # pylint: disable=broad-except
@@ -75,32 +110,12 @@ def pyval(v):
     from custom_components.pyscript.state import StateVal
 
     if isinstance(v, StateVal):
-        d = []
-        hs = HASS[0].states.get(v.__dict__.get("entity_id", "")) if isinstance(v.__dict__.get("entity_id"), str) else None
-        for k, x in v.__dict__.items():
-            if isinstance(x, _dt.datetime) and k in ("last_changed", "last_updated", "last_reported"):
-                d.append([ident_of(k), T.V_TIME])
-            else:
-                d.append([ident_of(k), vid(x)])
-        return {"k": "snap", "v": vid(str(v)), "d": d}
+        return {"k": "snap", "v": vid(str(v)), "d": [[ident_of(k), vid(x)] for k, x in v.__dict__.items()]}
     if isinstance(v, PvObj):
         return {"k": "obj", "d": attrs_of(v.__dict__)}
     if callable(v):
         return {"k": "func"}
     return {"k": "val", "v": vid(v)}
-
-
-def _times_ok(v):
-    """virtual time fields of a fresh snapshot equal the entity's fields in hass right now"""
-    from custom_components.pyscript.state import StateVal
-
-    if not isinstance(v, StateVal):
-        return True
-    ent = v.__dict__.get("entity_id")
-    hs = HASS[0].states.get(ent) if isinstance(ent, str) else None
-    if hs is None:
-        return False
-    return all(v.__dict__.get(k) == getattr(hs, k) for k in ("last_changed", "last_updated", "last_reported"))
 
 
 def ok(i, v, kind="val", fresh=False):
@@ -110,8 +125,6 @@ def ok(i, v, kind="val", fresh=False):
         r = {"k": "names", "l": [name_of(x) for x in v]}
     else:
         r = pyval(v)
-        if fresh and r["k"] == "snap" and not _times_ok(v):
-            r["d"] = [[k, (T.V_BADTIME if x == T.V_TIME else x)] for k, x in r["d"]]
     RECORDS[i] = {"ok": r}
 
 
